@@ -34,7 +34,7 @@ def via_len(via):
   return len(pos)
 
 
-def make_ds(n, chain, via=None):
+def make_ds(n, chain, via=None, wide=None):
   import fedjax
   from fedjax.core import client_datasets as cds
   fns = []
@@ -65,6 +65,11 @@ def make_ds(n, chain, via=None):
     require(held == list(range(n)), 'a sliced dataset does not hold the selected rows in order', list(range(n)), held)
     return ds, None
   raw = {'i': np.arange(n, dtype=np.int32), 'f': (np.arange(n, dtype=np.float32) * 0.5 + 1).reshape(n, 1)}
+  if wide:
+    # a heavy feature (images, embeddings): `wide` float32 values per example, megabytes per client
+    raw['w'] = np.zeros((n, wide), np.float32)
+    raw['w'][:, 0] = np.arange(n)
+    raw['w'][:, -1] = -np.arange(n)
   return fedjax.ClientDataset(raw, cds.BatchPreprocessor(fns)), raw
 
 
@@ -94,6 +99,10 @@ def check_stream(batches, n, b, chain, hp, want, skip):
     require(np.asarray(batch['f']).shape == (b, 1) and
             np.array_equal(np.asarray(batch['f'])[:, 0], idx.astype(np.float32) * 0.5 + 1),
             'batch %d: features of one example are not kept together' % k)
+    if 'w' in batch:
+      wv = np.asarray(batch['w'])
+      require(wv.shape[0] == b and np.array_equal(wv[:, 0], idx.astype(np.float32)) and np.array_equal(wv[:, -1], -idx.astype(np.float32)),
+              'batch %d: the wide feature of one example is not kept together with its other features' % k)
     if chain:
       require('z' in batch and np.array_equal(np.asarray(batch['z']), idx * 2 + 1),
               'batch %d: preprocessor not applied to the drawn examples' % k)
@@ -196,7 +205,7 @@ def seeded(case):
   ep, st, drop, skip, chain = case['epochs'], case['steps'], case['drop'], case['skip'], case.get('chain', False)
   want = ref.shuffle_num_steps(n, b, ep, st, drop)
   k = horizon(n, b, want)
-  ds, _ = make_ds(n, chain, case.get('via'))
+  ds, _ = make_ds(n, chain, case.get('via'), case.get('wide'))
   streams = {}
   evals = 0
   seam_missed = []
@@ -467,6 +476,15 @@ def plan(ctx):
   for n in ((1000, 2000, 5000) if th else (1024, 2000)):
     for b, st, ep in ((32, 8, None), (32, 8, 1), (7, 3, None), (64, 1, 2)):
       se.append({'N': n, 'B': b, 'epochs': ep, 'steps': st, 'drop': False, 'skip': False, 'seeds': seeds[:3], 'chain': False})
+  # heavy clients (1.25 MiB .. 17 MiB of features) with batches that straddle the epoch boundary
+  for wide in ((65536, 600000) if th else (65536, 600000)):
+    for n, b in ((5, 2), (7, 3), (5, 8)):
+      for ep, st in ((2, None), (None, 5), (3, 4)):
+        for skip in (False, True):
+          if wide > 100000 and (skip or (n, b) != (7, 3)):
+            continue
+          se.append({'N': n, 'B': b, 'epochs': ep, 'steps': st, 'drop': False, 'skip': skip, 'seeds': seeds[:2], 'chain': False,
+                     'wide': wide})
   # NumPy-typed seeds, and dataset sizes around the 2**15 / 2**16 boundaries of narrow index types
   for stype in ('int64', 'uint32', 'int32'):
     for n, b in ((5, 2), (7, 3)):
